@@ -201,7 +201,7 @@ var installOnce sync.Once
 func InstallHost() {
 	installOnce.Do(func() {
 		ctx := context.Background()
-		actypes.InitRuntimePool(ctx, rtLogger{}, 0, 0)
+		actypes.InitRuntimePool(ctx, rtLogger{}, int32(envInt("VERIF_POOL", 16)), int32(envInt("VERIF_POOL", 16)))
 		djpm.NewAspect(provider{}, rtLogger{})
 		actypes.IsCommit = func(context.Context) bool { return true }
 		actypes.GetEvmHostHook = func(ctx context.Context) (actypes.EVMHostAPI, error) {
